@@ -161,7 +161,9 @@ func (s *Sim) handle(ev simrt.Event) {
 		if ev.A == 0 {
 			k := int(ev.Sub)
 			for _, o := range s.jobs {
-				if o.kind == k {
+				// a job whose completion is being posted may still be listed: which of
+				// the two events arrives first is not decided by the controller
+				if o.kind == k && o.state != jPosting {
 					s.res.Count("probe_two_jobs_of_kind_"+simrt.KindNames[k], 1)
 				}
 			}
